@@ -14,6 +14,7 @@ mod c04;
 mod c10;
 mod c12;
 mod c16;
+mod c17;
 mod case;
 mod evalx;
 mod exec;
@@ -172,10 +173,6 @@ fn cmd_replay(args: &[String]) -> i32 {
             return 2;
         }
     };
-    if v["case"]["engine"].as_str() == Some("cli") || v["engine"].as_str() == Some("cli") {
-        eprintln!("harness error: cli replay files are replayed by `check replay` (engine B)");
-        return 2;
-    }
     let case = match Case::from_json(&v["case"]) {
         Ok(c) => c,
         Err(e) => {
